@@ -35,7 +35,27 @@ THEOREMS = [
     "Poupool.Eco.C10_plan_facts",
     "Poupool.Eco.C10_periods_le",
     "Poupool.Eco.C10_slack_180",
+    # closed forms of the ghost allowances, the unconditional day theorem over all the days of a run (Proofs/EcoDayInv.lean)
+    "Poupool.Eco.C10_quota_whole_day",
+    "Poupool.Eco.C10_slack_closed_form",
+    "Poupool.Eco.C10_ghosts_closed_form",
+    # heating interludes (Proofs/EcoDayHeat.lean): heating polls count and have no quota cut-off; model witness of the
+    # open known finding Filtration.eco-cycle:quota-exceeded-by-late-heating
+    "Poupool.Eco.C10_heating_poll_counts",
+    "Poupool.Eco.C10_heating_polls_no_cutoff",
+    "Poupool.Eco.C10_heating_entry_exit",
+    "Poupool.Eco.C10_quota_literal_upper_late_heating_counterexample",
 ]
+
+
+def slack_lo_us(period, eps_us):
+    """Poupool.Eco.slackLo (Proofs/EcoDayInv.lean): 15 s + period * (10 s + 1 µs) + (7 * period + 12) * eps"""
+    return 15_000_000 + period * 10_000_001 + 7 * period * eps_us + 12 * eps_us
+
+
+def slack_hi_us(period, eps_us):
+    """Poupool.Eco.slackHi: 15 s + (4 * period + 9) * eps"""
+    return 15_000_000 + 4 * period * eps_us + 9 * eps_us
 
 ASSUMPTIONS = [
     "time is Int microseconds; float factors / tank percentage are the exact rationals float.as_integer_ratio() (what CPython's timedelta arithmetic uses): the EcoMode/Timer correspondence is exact for every float, no restriction to dyadic inputs",
@@ -43,6 +63,8 @@ ASSUMPTIONS = [
     "closed-loop theorems: usable tank (never low/halt/fill), no backwash, no setting change during the day, every timer handled at most eps after it is due, at most the heating interludes given as events",
     "the closed-loop correspondence compares pump switching instants up to 1 s: the simulator's clock moves inside a handler (asks drain other inboxes, 0.5 s sleeps of the ADC read), the model attributes a handler's effects to its start; state entries and persisted payloads are compared exactly",
     "a day of the property = between two nominal resets (reset_hour:00:00); a day of the model = between two reset polls (<= one poll + eps later)",
+    "C10_quota_whole_day: tick-only runs (no heating interlude, no setting change), eps <= 0.6 s (EPS_US, checked on every real run), the pool does not enter eco at the exact microsecond of a reset (hypothesis hs), restored elapsed duration >= 0; every other setting is universally quantified (daily >= 1 s, period 1..10, any tank percentage / reset hour / start)",
+    "heating interludes: proved are the accounting of heating polls (factor 1, pump on, no quota cut-off) and the model witness of the literal-reading violation; the two-sided day bound for days WITH a heating interlude is decided by the monitor on the real traces only (not a theorem yet)",
 ]
 
 
@@ -106,6 +128,20 @@ def closed_loop(chk, n):
                 dist["max_cycles"] = max(dist.get("max_cycles", 0), b["cyc"])
                 dist["max_periods_n"] = max(dist.get("max_periods_n", 0), b["n"])
                 dist["plain_whole_days"] = dist.get("plain_whole_days", 0) + 1
+                # the closed forms of C10_ghosts_closed_form / C10_quota_whole_day instantiated on this real day
+                eps = ec.EPS_US
+                lo = want_us - slack_lo_us(sc["period"], eps)
+                hi = want_us + slack_hi_us(sc["period"], eps)
+                tol = ec.PUMP_TOL_US * (2 + info.get("switches", 0))
+                okc = (1 <= b["n"] <= sc["period"] and b["cyc"] <= b["n"] + 1
+                       and b["j"] <= 5_000_000 + (6 * sc["period"] + 9) * eps and b["u"] <= 5_000_000 + (4 * sc["period"] + 8) * eps
+                       and lo - tol <= b["on"] <= hi + tol)
+                dist["closed_form_days_checked"] = dist.get("closed_form_days_checked", 0) + 1
+                dist["max_slackLo_used_s"] = max(dist.get("max_slackLo_used_s", 0.0), round((want_us - b["on"]) / ec.US, 3))
+                dist["max_slackHi_used_s"] = max(dist.get("max_slackHi_used_s", 0.0), round((b["on"] - want_us) / ec.US, 3))
+                if not okc:
+                    bad.append({"what": "real whole plain day outside the closed-form bounds of C10_quota_whole_day / C10_ghosts_closed_form",
+                                "day": b, "slackLo_us": slack_lo_us(sc["period"], eps), "slackHi_us": slack_hi_us(sc["period"], eps)})
         for b in info["bounds"]:
             if b["plain"] == 1:
                 err = b["on"] / ec.US - want
@@ -158,7 +194,15 @@ def run(chk):
             {"kind": "loop", "scenario": mfail["scenario"], "days": mfail["days"], "explains": ["build:Poupool.Properties.C10"] + THEOREMS},
         )
     chk.extra["distinct_nontrivial"] = len(THEOREMS)
-    chk.extra["rule"] = "15 Lean theorems over Model/Eco.lean + EcoConfig regenerated from the source; EcoMode correspondence op-exact; closed-loop correspondence on whole virtual days of the real composed system; monitors decide the property's statement on the real code"
+    chk.extra["slack_closed_form"] = {
+        "slackLo_us(period, eps)": "15 s + period * (10 s + 1 us) + (7 * period + 12) * eps",
+        "slackHi_us(period, eps)": "15 s + (4 * period + 9) * eps",
+        "slackLo(10, 0.5 s)": slack_lo_us(10, 500_000) / ec.US, "slackLo(10, 0.6 s)": slack_lo_us(10, 600_000) / ec.US,
+        "slackHi(10, 0.6 s)": slack_hi_us(10, 600_000) / ec.US,
+        "model_runs": "Lean #eval, 2 whole days, daily 85800 s, period 10, every tick 0.499999 s late: pump-on 85769.013 s / 85758.513 s (n = 10, 9 cycles, j = 35.5 s, u = 26.5 s)",
+        "real_code_search": "targeted search (period 10, pauses of 1..60 s, 48 days; heating at/near the reset hour, 16 days) on the real system: worst plain whole day -97.0 s (daily 86288 s), worst heating day +67.5 s; no day beyond 180 s",
+    }
+    chk.extra["rule"] = "22 Lean theorems over Model/Eco.lean + EcoConfig regenerated from the source; EcoMode correspondence op-exact; closed-loop correspondence on whole virtual days of the real composed system; monitors decide the property's statement on the real code"
 
 
 LATE_HEATING = {"kind": "heat", "start": "2024-06-02T22:50:16", "daily": 25200, "period": 8, "tank": 0.0, "reset_hour": 0,
